@@ -1,5 +1,7 @@
 import TddaVerif.Drv.Util
 import TddaVerif.Model.CheckStrings
+import TddaVerif.Model.Encoding
+import TddaVerif.Generated.Utils
 open Lean TddaVerif.Drv TddaVerif.Py TddaVerif.CheckStrings
 
 namespace TddaVerif.Drv.C04
@@ -40,6 +42,10 @@ def feJson : Option FirstError → Json
 
 def handle (op : String) (j : Json) : Option (R Json) :=
   match op with
+  | "c04.encoding" => some do
+      let k : TddaVerif.Encoding.Consts := ⟨TddaVerif.Generated.Utils.specialExt, TddaVerif.Generated.Utils.specialEnc,
+        TddaVerif.Generated.Utils.defaultEnc⟩
+      pure (ofChars (TddaVerif.Encoding.getEncoding k (← asChars (← fld j "path")) (← asOpt asChars (← fld j "enc"))))
   | "c04.check_strings" => some do
       let o ← parseOpts (← fld j "opts")
       let pat ← parsePat (fldD j "pat" (Json.arr #[]))
